@@ -72,6 +72,13 @@ CHECKS = {
         note=TRUST + "; 'identical overlap matrix' follows from equality of the basis functions in order + determinism, the integral code itself is C06; flattening lemma stated, not mechanised",
         technique="contract-based deductive verification (AST symbolic execution -> z3 VCs, generic-iteration loop rule, induction lemmas) + bounded random bases/orbitals on the real functions",
     ),
+    "C03": dict(
+        category="other",
+        text="Proved for all inputs: fchk._triangle_to_dense unpacks the packed lower triangle to dense[i,j] = packed[max(max+1)/2+min] for every matrix size (loop invariant, z3 nonlinear integer arithmetic); the column slices of the PDB ATOM/HETATM parser are exactly the PDB v3.3 columns and CONECT serials are read from columns 7-11, 12-16, ... Finite enumeration of width classes (digits sampled): record-level readers of SDF, PDB, GRO, XYZ, cube, Gaussian-log matrices and FCIDUMP are fed with files produced by independent writers that follow the published layouts, every field crossing its width boundaries. Three open known findings (SDF whitespace split, GRO x-field columns). The free-text log parsers and the section state machines are not covered (listed under not_covered), hence `other`.",
+        design_ref="DESIGN.md 6/C03",
+        note="trusted: the published layouts as typed into the check, numpy slice-store axioms; large parts of the 25 readers are outside reach and are named in the evidence",
+        technique="contract-based deductive verification of index unpacking (loop invariant, z3) + column contracts + finite width-class enumeration against independent spec-following writers (bounded)",
+    ),
     "C04": dict(
         category="other",
         text="The real readers and writers are executed with the unit constants of their modules as indeterminates (a constant is scaled; the exponent with which it enters each loaded / written number is read off exactly, for every element): per (format, attribute) the monomial must equal a unit table written from the format documentation, writer-then-reader must have total exponent 0, every unit-constant use site must lie on an executed path, the ten constants of iodata.utils must equal CODATA values, and absolute probes cover quantities for which the module has no constant (masses in GAMESS / Q-Chem / QCSchema, Q-Chem multipoles, CHGCAR density vs. cell volume). This decides the factor for all numeric values on the executed corpus / crafted paths, not for all files: hence `other`. Four obligations are refuted by open known findings (masses and multipoles stored as printed).",
